@@ -27,7 +27,7 @@ ASSUMPTIONS = [
     "vlib.chunktools edits (dropping SLnK chunks, appending a -1 terminator) produce files the format documentation allows",
 ]
 REQUIRED_LABELS = {
-    "quick": ["save_load_midway", "freed_slot_middle_saved", "cycle_saved", "variant_subset", "variant_all_removed", "slnk_written"],
+    "quick": ["save_load_midway", "freed_slot_middle_saved", "cycle_saved", "variant_subset", "variant_all_removed", "slnk_written", "modules_at_positions_above_256"],
     "thorough": ["save_load_midway", "freed_slot_middle_saved", "cycle_saved", "fan_in3_saved", "variant_subset", "variant_all_removed", "slnk_written"],
 }
 
@@ -44,6 +44,9 @@ def plan(tier):
     n, per = (16, 50) if tier == "quick" else (16, 500)
     for i in range(n):
         descs.append({"kind": "random", "examples": per, "max_modules": 8 if tier == "quick" else 16, "max_ops": 24 if tier == "quick" else 40})
+    for i in range(2 if tier == "quick" else 8):
+        # projects whose linked modules sit at positions around and above 256
+        descs.append({"kind": "random", "big": True, "examples": 12 if tier == "quick" else 80, "max_modules": 8, "max_ops": 16})
     return descs
 
 
@@ -147,8 +150,8 @@ def check_variants(data, E, variant, labels):
 
 
 @st.composite
-def c08_case(draw, max_modules, max_ops):
-    case = draw(c07.op_list(max_modules, max_ops, with_save_load=True))
+def c08_case(draw, max_modules, max_ops, big=False):
+    case = draw(c07.op_list(max_modules, max_ops, with_save_load=True, big=big))
     case["variant"] = {
         "drop": draw(st.sampled_from(["none", "all", "subset", "subset"])),
         "mask": draw(st.integers(0, 2**30 - 1)),
@@ -216,11 +219,13 @@ def run_shard(ctx, desc):
         ctx.case()
         labels = run_case(ctx, case)
         ctx.label(*labels)
+        if case.get("base"):
+            ctx.label("modules_at_positions_above_256")
         if labels & {"freed_slot_middle_saved", "cycle_saved", "fan_in3_saved", "variant_subset"}:
             ctx.mark_nontrivial(case)
         ctx.sample(case)
 
-    run_property(ctx, c08_case(desc["max_modules"], desc["max_ops"]), body, desc["examples"], tag="ops")
+    run_property(ctx, c08_case(desc["max_modules"], desc["max_ops"], big=desc.get("big", False)), body, desc["examples"], tag="ops_big" if desc.get("big") else "ops")
 
 
 def replay(ctx, doc):
